@@ -1,4 +1,94 @@
-import DnsModel.Threads
-import DnsModel.Steps
+/-
+  C18 — Validation work is linear in the packet size.
+  `parseI` (DnsModel/Steps.lean) is the validator instrumented with the step counter that the
+  cfg-guarded hook implements in the Rust code: one step per iteration of the two name-walking
+  loops, one per record, one per EDNS option — counted on failing paths too.
+-/
+import DnsModel.Lemmas.StepsBound
 namespace Dns.C18
+open Dns Cnt Sector Res
+
+/-- forgetting the counter gives back the validator of C01/C02 -/
+theorem erasure (p : Bytes) : (parseI p).res = parse p := parseI_res p
+
+/-- a section loop followed by a continuation whose cost is linear in what is left -/
+private theorem seq_cost {β} {p : Bytes} {s : Sector} (sec : Section) (n : Nat) (h : s.offset ≤ p.length)
+    (f : Sector → Cnt β)
+    (hf : ∀ s', s.offset ≤ s'.offset → s'.offset ≤ p.length → (f s').steps ≤ K * (p.length - s'.offset) + C) :
+    (SectorI.parseRRs p sec n s >>= f).steps ≤ K * (p.length - s.offset) + C := by
+  have c := parseRRsI_cost (p := p) sec n h
+  rw [steps_bind]
+  cases hr : (SectorI.parseRRs p sec n s).res with
+  | ok s' =>
+    obtain ⟨a1, a2, a3⟩ := c.2 s' hr
+    have := hf s' a1 a2
+    simp only
+    unfold K at *
+    omega
+  | err e => simp only; exact c.1
+  | panic => simp only; exact c.1
+  | diverge => simp only; exact c.1
+
+/-- **C18.** For every byte string, the number of elementary steps the validator spends is at most
+`76 * len + 1095` (≤ `80 * len + 1200`): no crafted packet makes validation loop or go quadratic. -/
+theorem steps_linear (p : Bytes) : (parseI p).steps ≤ 80 * p.length + 1200 := by
+  unfold parseI
+  simp only [failIf]
+  consts
+  -- header checks and counts are free
+  rw [steps_lift_ite_bind]
+  split
+  · omega
+  rename_i hlen
+  simp at hlen
+  apply Nat.le_trans (steps_lift_bind_le _ _ (76 * p.length + 1095) ?_) (by omega)
+  intro flags
+  apply steps_lift_bind_le; intro qd
+  apply steps_lift_bind_le; intro _
+  apply steps_lift_bind_le; intro _
+  rw [steps_bind]
+  simp only [steps_lift, res_lift]
+  cases hso : Sector.setOffset p Sector.new 12 with
+  | ok r =>
+    obtain ⟨s1, old⟩ := r
+    obtain ⟨e1, e2, _⟩ := setOffset_ok hso
+    have h1 : s1.offset ≤ p.length := by rw [e1]; simp; omega
+    simp only
+    have hq := parseQuestionI_steps p s1
+    rw [steps_bind]
+    cases hrq : (SectorI.parseQuestion p s1).res with
+    | ok s2 =>
+      have h2 : s2.offset ≤ p.length :=
+        ((parseQuestion_spec (p := p) (s := s1) h1).2 s2 (by rw [← parseQuestionI_res]; exact hrq)).2
+      simp only
+      apply Nat.le_trans (Nat.add_le_add_left (Nat.add_le_add hq (steps_lift_bind_le _ _ (K * (p.length - s2.offset) + C) ?_)) 0)
+      · unfold K C; have hW : W = 273 := rfl; omega
+      intro an
+      apply steps_lift_bind_le; intro _
+      apply seq_cost .answer an h2
+      intro s3 _ h3
+      apply steps_lift_bind_le; intro ns
+      apply steps_lift_bind_le; intro _
+      apply seq_cost .nameServers ns h3
+      intro s4 _ h4
+      apply steps_lift_bind_le; intro ar
+      apply seq_cost .additional ar h4
+      intro s5 _ h5
+      apply steps_lift_bind_le; intro _
+      apply steps_lift_bind_le; intro _
+      simp
+    | err e => simp only; have hW : W = 273 := rfl; omega
+    | panic => simp only; have hW : W = 273 := rfl; omega
+    | diverge => simp only; have hW : W = 273 := rfl; omega
+  | err e => simp
+  | panic => simp
+  | diverge => simp
+
+end Dns.C18
+
+namespace Dns.C18
+/-! non-vacuity: the counter really counts (a question name of one label costs two walker
+iterations; a pointer chain costs one per hop) -/
+example : (parseI [0,0,0,0, 0,1, 0,0, 0,0, 0,0, 1,97,0, 0,1, 0,1]).steps = 2 := by decide
+example : (parseI [0,0,0x80,0, 0,1, 0,1, 0,0, 0,0, 1,97,0, 0,1, 0,1, 0xc0,12, 0,1, 0,1, 0,0,0,0, 0,4, 1,2,3,4]).steps = 6 := by decide
 end Dns.C18
